@@ -18,6 +18,9 @@ def build(req):
     nel_even = not req["odd"]
     if req["odd"]:
         q = torch.ones_like(q)
+    if req.get("qmix"):
+        q = q.clone()
+        q[1] = q[1] + 2.0          # same parity, two electrons less than its batch mate
     if req["uhf"]:
         good = 1.0 if nel_even else 2.0
         bad = 2.0 if nel_even else 1.0
@@ -102,10 +105,18 @@ STRESS = [
     ("h2o +2", "h2o", 1.0, 2, "AM1"), ("h2o +4", "h2o", 1.0, 4, "AM1"), ("h2o -2", "h2o", 1.0, -2, "PM3"), ("nh3 +2", "nh3", 1.0, 2, "MNDO"),
     ("co2 x1", "co2", 1.0, 0, "AM1"), ("co2 x0.6", "co2", 0.6, 0, "PM3"), ("hf x10", "hf", 10.0, 0, "AM1"),
     ("hcl", "hcl", 1.0, 0, "AM1"), ("h2s", "h2s", 1.0, 0, "PM3"), ("sih4", "sih4", 1.0, 0, "AM1"), ("ph3", "ph3", 1.0, 0, "PM3"), ("hcl mndo", "hcl", 1.0, 0, "MNDO"),
+    # unrestricted references with an empty spin channel (one electron; two parallel electrons), near and far
+    ("h2+ doublet", "h2", 1.0, 1, "AM1", 2), ("h2+ doublet x4", "h2", 4.0, 1, "PM3", 2), ("h2 triplet", "h2", 1.0, 0, "AM1", 3), ("h2 triplet x4", "h2", 4.0, 0, "MNDO", 3),
+    ("h2+ doublet fixed mixing", "h2", 1.0, 1, "AM1", 2, None, [0, 0.3]),
+    # elements whose valence shell the overlap routines do not implement must be refused, not computed with another shell's formulas
+    ("hbr", "hbr", 1.0, 0, "AM1", None, "raise"), ("h2se", "h2se", 1.0, 0, "PM3", None, "raise"), ("hi", "hi", 1.0, 0, "AM1", None, "raise"), ("hbr pm6sp", "hbr", 1.0, 0, "PM6_SP", None, "raise"),
     ("h2s x0.6", "h2s", 0.6, 0, "AM1"), ("hcl x15", "hcl", 15.0, 0, "PM3"), ("ch3cl", "ch3cl", 1.0, 0, "PM3"), ("pm6sp h2o", "h2o", 1.0, 0, "PM6_SP"), ("pm6sp h2s x3", "h2s", 3.0, 0, "PM6_SP"),
 ]
 scf_driver.MOLS.update({
     "hcl": ([17, 1], [[0, 0, 0], [1.27, 0, 0]], 0, 1),
+    "hbr": ([35, 1], [[0, 0, 0], [1.41, 0.02, 0.01]], 0, 1),
+    "hi": ([53, 1], [[0, 0, 0], [1.61, 0.02, 0.01]], 0, 1),
+    "h2se": ([34, 1, 1], [[0, 0, 0], [1.46, 0, 0.01], [-0.05, 1.46, 0]], 0, 1),
     "h2s": ([16, 1, 1], [[0, 0, 0], [1.34, 0, 0], [-0.05, 1.34, 0]], 0, 1),
     "sih4": ([14, 1, 1, 1, 1], [[0, 0, 0], [0.85, 0.85, 0.85], [-0.85, -0.85, 0.85], [-0.85, 0.85, -0.85], [0.85, -0.85, -0.85]], 0, 1),
     "ph3": ([15, 1, 1, 1], [[0, 0, 0.13], [1.19, 0, -0.62], [-0.6, 1.03, -0.62], [-0.6, -1.03, -0.62]], 0, 1),
@@ -121,12 +132,17 @@ def run_stress(case):
     common.quiet_stdio()
     _verif.configure(budget={"sp2.iter:k": 3000})
     name, m, scale, charge, method = case[:5]
-    out = {"name": name}
+    umult = case[5] if len(case) > 5 else None
+    conv = case[7] if len(case) > 7 else [1]
+    out = {"name": name, "expect": case[6] if len(case) > 6 else None}
     try:
-        p = mdlib.seqm_params(method=method, scf_eps=1e-6, scf_converger=[1])
+        p = mdlib.seqm_params(method=method, scf_eps=1e-6, scf_converger=conv)
         sp, xyz, q, mult = scf_driver.build_batch([m])
         xyz = xyz * scale
         q = torch.full_like(q, float(charge))
+        if umult:
+            p["UHF"] = True
+            mult = torch.full_like(mult, float(umult))
         mol = Molecule(Constants(), p, xyz, sp, charges=q, mult=mult)
         mol.verbose = False
         es = Electronic_Structure(p)
